@@ -408,14 +408,11 @@ def rule_index_maps(rep, repo):
             sj.run(strip_docstring(inv.node.body))
         except e7.SeqInterp.Undecided as e:
             raise AnalysisError(f"index maps ({nd}D): cannot follow index_to_coordinates: {e}") from e
-        divs = []
-        branch = _branch_for_dim(inv.node, nd)
-        for n in ast.walk(ast.Module(body=branch, type_ignores=[])):
-            if isinstance(n, ast.BinOp) and isinstance(n.op, ast.FloorDiv):
-                try:
-                    divs.append(sj.ev(n.right))
-                except e7.SeqInterp.Undecided as e:
-                    raise AnalysisError(f"index maps ({nd}D): divisor `{norm(n.right)}`: {e}") from e
+        # the divisors of the floor divisions executed for this dimensionality (branches on the
+        # dimension folded, loops over known sequences unrolled)
+        divs = list(sj.divisors)
+        if not divs:
+            raise AnalysisError(f"index maps ({nd}D): index_to_coordinates executes no floor division the analysis can follow")
         divs_sorted = sorted(divs, key=lambda p: -max((sum(e for _, e in m) for m in p), default=0))
         if divs_sorted == strides[:-1] == want[:-1]:
             rep.ok("index-map-strides", f"_HyperRectangleGrid.index_to_coordinates[{nd}D]", inv.loc(),
